@@ -263,6 +263,91 @@ fn alias<A: Fx>(c: &mut Ctx, name: &str, int_nbits: u32, frac_nbits: u32) {
     c.wr.end();
 }
 macro_rules! aliases { ($c:expr; $($t:ident)*) => { $( alias::<$t>($c, stringify!($t), <$t>::INT_NBITS, <$t>::FRAC_NBITS); )* } }
+// ------------------------------------------------------------------ G05: iterator folds and predicates of the plain types
+fn nums(c: &mut Ctx, xs: &[u128], l: Lay) {
+    c.wr.raw("[");
+    for (i, &x) in xs.iter().enumerate() {
+        if i > 0 { c.wr.raw(","); }
+        c.wr.num(sval(x, l.s, l.w));
+    }
+    c.wr.raw("]");
+}
+fn fold<A>(c: &mut Ctx)
+where
+    A: Fx + std::iter::Sum<A> + std::iter::Product<A> + for<'a> std::iter::Sum<&'a A> + for<'a> std::iter::Product<&'a A>,
+{
+    let l = A::lay();
+    let mut rng = Rng::new(c.seed ^ 0xF01D ^ ((l.w as u64) << 40) ^ ((l.f as u64) << 12) ^ l.s as u64);
+    let one = if l.f < l.w { 1u128 << l.f } else { 0 };
+    let lat = gen::lattice_small(l);
+    let mut lists: Vec<Vec<u128>> = vec![vec![], vec![0], vec![one], vec![mask(l.w)], vec![one, one, one], vec![1, 1], vec![mask(l.w), 1]];
+    for _ in 0..kq(c, 30, 400) {
+        let n = 1 + rng.below(6) as usize;
+        // small magnitudes (sums / products mostly fit), lattice values (mostly overflow), and a mix
+        let cls = rng.below(3);
+        let mut v = vec![];
+        for _ in 0..n {
+            let small = {
+                let bits = 1 + rng.below(((l.w as u64) / n as u64).max(2)) as u32;
+                let m = rng.u128() & mask(bits.min(l.w - 1));
+                if l.s && rng.below(2) == 0 { m.wrapping_neg() & mask(l.w) } else { m }
+            };
+            let near_one = one.wrapping_add(rng.below(5) as u128).wrapping_sub(2) & mask(l.w);
+            v.push(match cls { 0 => small, 1 => lat[rng.below(lat.len() as u64) as usize], _ => if rng.below(2) == 0 { small } else { near_one } });
+        }
+        lists.push(v);
+    }
+    for xs in lists {
+        let v: Vec<A> = xs.iter().map(|&x| A::from_raw(x)).collect();
+        for op in ["sum", "product"] {
+            head(c, "fold");
+            c.wr.raw(",\"op\":\"");
+            c.wr.raw(op);
+            c.wr.raw("\",\"L\":");
+            c.wr.lay(l);
+            c.wr.raw(",\"xs\":");
+            nums(c, &xs, l);
+            c.wr.raw(",\"o\":");
+            let o = if op == "sum" {
+                [o_val(|| v.iter().cloned().sum::<A>()), o_val(|| v.iter().sum::<A>())]
+            } else {
+                [o_val(|| v.iter().cloned().product::<A>()), o_val(|| v.iter().product::<A>())]
+            };
+            c.wr.outs(&o);
+            c.wr.raw("}");
+            c.wr.end();
+        }
+    }
+}
+fn pred<A: Fx + FxSign + Default>(c: &mut Ctx) {
+    let l = A::lay();
+    let mut vals = gen::lattice(l, false);
+    vals.extend(single_values(c, l, 31));
+    for ar in budget(vals, kq(c, 60, 1000), c.seed ^ 0x9ED ^ ((l.w as u64) << 40) ^ ((l.f as u64) << 12) ^ l.s as u64) {
+        let a = A::from_raw(ar);
+        head(c, "pred");
+        c.wr.raw(",\"L\":");
+        c.wr.lay(l);
+        c.wr.raw(",\"a\":");
+        c.wr.num(a.val());
+        c.wr.raw(",\"o\":");
+        let sg = |f: Option<bool>| match f { Some(b) => Out::B(b), None => Out::Absent };
+        c.wr.outs(&[
+            sg(A::p_is_neg(a)),
+            sg(A::p_is_pos(a)),
+            o_val(|| A::min_value()),
+            o_val(|| A::max_value()),
+            o_val(|| A::default()),
+            o_val(|| A::from_bits(a.to_bits())),
+            o_val(|| A::from_le_bytes(a.to_le_bytes())),
+            o_val(|| A::from_be_bytes(a.to_be_bytes())),
+            o_val(|| A::from_ne_bytes(a.to_ne_bytes())),
+        ]);
+        c.wr.raw("}");
+        c.wr.end();
+    }
+}
+
 macro_rules! each { ($f:ident, $c:expr; $($t:ident)*) => { $( $f::<$t>($c); )* } }
 macro_rules! each_to { ($f:ident, $b:ty, $c:expr; $($t:ident)*) => { $( $f::<$t, $b>($c); )* } }
 macro_rules! each_from { ($f:ident, $a:ty, $c:expr; $($t:ident)*) => { $( $f::<$a, $t>($c); )* } }
@@ -328,6 +413,12 @@ fn main() {
         spread!(each_from!(az_static, U8F0, &mut c;));
         spread!(each_from!(az_static, I4F4, &mut c;));
         spread!(each_from!(az_static, U32F32, &mut c;));
+    }
+    if c.on("fold") {
+        spread!(each!(fold, &mut c;));
+    }
+    if c.on("pred") {
+        spread!(each!(pred, &mut c;));
     }
     if c.on("alias") {
         for_all_layouts!(aliases!(&mut c;));
